@@ -987,6 +987,37 @@ func tsdCase(c *core.Ctx, r *rand.Rand) {
 				guard(c, "td err 0", func() string { return fmt.Sprintf("%v", dec.Error() != nil) })
 			}
 		}
+		// an EMPTY block (zero bytes: BytesWithoutTime of a field without data points, a zero-length field
+		// of a stream / data file) given to a decoder whose previous block was only half read: over the
+		// same slot range it must decode to "no slot has a value", slot-addressed and sequentially.
+		if r.Intn(3) == 0 {
+			c.Branch("tsd-empty-block-after-half-read")
+			eb := &tsdBlock{start: b.start, mask: make([]bool, len(b.mask)), vals: make([]uint64, len(b.mask)), data: []byte{}, noTime: true}
+			for pass := 0; pass < 2; pass++ {
+				resetDecoder(c, dec, b)
+				half := r.Intn(len(b.mask)) // 0 .. n-1 slots of the predecessor are read
+				for q := b.start; q < b.start+half; q++ {
+					guard(c, fmt.Sprintf("td gv 0 %d", q), func() string {
+						f, ok := dec.GetValue(uint16(q))
+						if !ok {
+							return "false"
+						}
+						return fmt.Sprintf("true %d", math.Float64bits(f))
+					})
+				}
+				if r.Intn(3) == 0 { // through the pool as well
+					encoding.ReleaseTSDDecoder(dec)
+					c.Op("td rel 0", "ok")
+					guard(c, "td get 0", func() string { dec = encoding.GetTSDDecoder(); return "ok" })
+				}
+				resetDecoder(c, dec, eb)
+				if pass == 0 {
+					checkAgainst(c, "empty block, slot-addressed", eb, readSlots(c, r, dec, eb))
+				} else {
+					checkAgainst(c, "empty block, sequential", eb, readSequential(c, dec, eb))
+				}
+			}
+		}
 		// rarely: Bytes() a second time on the same encoder (flush does not re-arm the writer)
 		if r.Intn(12) == 0 && !b.noTime {
 			c.Branch("tsd-bytes-twice")
@@ -1934,18 +1965,27 @@ func streamCase(c *core.Ctx, r *rand.Rand) {
 			b := &tsdBlock{start: start, mask: genMask(r, n), vals: make([]uint64, n)}
 			prev := r.Uint64()
 			enc := encoding.GetTSDEncoder(uint16(start))
-			for i := range b.vals {
-				b.vals[i] = genU64(r, prev)
-				prev = b.vals[i]
-				if b.mask[i] {
-					enc.AppendTime(bit.One)
-					enc.AppendValue(b.vals[i])
-				} else {
-					enc.AppendTime(bit.Zero)
+			if f > 0 && r.Intn(3) == 0 {
+				// a field without any data point: nothing is appended, BytesWithoutTime() is empty
+				c.Branch("tsd-stream-empty-field")
+				b.mask = make([]bool, n)
+			} else {
+				for i := range b.vals {
+					b.vals[i] = genU64(r, prev)
+					prev = b.vals[i]
+					if b.mask[i] {
+						enc.AppendTime(bit.One)
+						enc.AppendValue(b.vals[i])
+					} else {
+						enc.AppendTime(bit.Zero)
+					}
 				}
 			}
 			d, _ := enc.BytesWithoutTime()
 			b.data = cp(d)
+			if b.data == nil {
+				b.data = []byte{}
+			}
 			encoding.ReleaseTSDEncoder(enc)
 			id := r.Intn(65536)
 			flds = append(flds, fld{id, b})
@@ -1987,17 +2027,52 @@ func streamCase(c *core.Ctx, r *rand.Rand) {
 				break
 			}
 			got := map[int]uint64{}
-			for s := start; s <= start+n-1; s++ {
-				guard(c, fmt.Sprintf("td gv 5 %d", s), func() string {
-					fv, ok := dec.GetValue(uint16(s))
-					if !ok {
-						return "false"
-					}
-					got[s] = math.Float64bits(fv)
-					return fmt.Sprintf("true %d", math.Float64bits(fv))
-				})
+			last := start + n - 1
+			if f+1 < nf && len(flds[f+1].b.data) == 0 {
+				// the predecessor of an empty field is only half read
+				c.Branch("tsd-stream-half-read-before-empty-field")
+				last = start + r.Intn(n) - 1
 			}
-			checkAgainst(c, "tsd-stream field", flds[f].b, got)
+			if len(flds[f].b.data) == 0 && r.Intn(2) == 0 {
+				// the empty field, sequentially (Next / HasValue / Slot / Value)
+				for i := 0; i <= n; i++ {
+					more := false
+					guard(c, "td next 5", func() string { more = dec.Next(); return fmt.Sprintf("%v", more) })
+					if !more {
+						break
+					}
+					has := false
+					guard(c, "td hv 5", func() string { has = dec.HasValue(); return fmt.Sprintf("%v", has) })
+					if has {
+						slot := 0
+						guard(c, "td slot 5", func() string { slot = int(dec.Slot()); return fmt.Sprintf("%d", slot) })
+						guard(c, "td val 5", func() string { v := dec.Value(); got[slot] = v; return fmt.Sprintf("%d", v) })
+					}
+				}
+			} else {
+				for s := start; s <= last; s++ {
+					guard(c, fmt.Sprintf("td gv 5 %d", s), func() string {
+						fv, ok := dec.GetValue(uint16(s))
+						if !ok {
+							return "false"
+						}
+						got[s] = math.Float64bits(fv)
+						return fmt.Sprintf("true %d", math.Float64bits(fv))
+					})
+				}
+			}
+			if last == start+n-1 {
+				checkAgainst(c, "tsd-stream field", flds[f].b, got)
+			} else {
+				for s := start; s <= last; s++ {
+					want, on := flds[f].b.at(s)
+					v, ok := got[s]
+					if on != ok || (on && v != want) {
+						c.Fail("tsd-roundtrip", fmt.Sprintf("tsd-stream field (half read): slot %d: encoded (%v,%016x) decoded (%v,%016x)", s, on, want, ok, v))
+						break
+					}
+				}
+			}
 		}
 		guard(c, "tsr close 0", func() string { sr.Close(); return "ok" })
 	}
